@@ -95,7 +95,13 @@ impl Family for Wrap {
       return out;
     }
     let blame = blame_from_outcome(&out.res.outcome);
-    out.violations = blocked_violation(&out.res, &blame, w).into_iter().collect();
+    let mut vs: Vec<Violation> = blocked_violation(&out.res, &blame, w).into_iter().collect();
+    // an unbounded producer is not judged for spinning by itself - but the inner family's oracle
+    // knows when it spins on a subscription that has ended or that it has lost (amb)
+    if vs.is_empty() && matches!(out.res.outcome, Outcome::Livelock { .. }) {
+      vs.extend(out.violations.iter().filter(|v| v.class == "producer-not-stopped" || v.class == "amb-loser-not-cancelled").cloned());
+    }
+    out.violations = vs;
     out
   }
   fn shrink(&self, w: &Json) -> Vec<Json> {
